@@ -102,8 +102,10 @@ def make_frame(framing, uid, m, tid, r=None):
             m['count'] = m['count'] % 120 + 1
         elif 'bits' in m:
             m['bits'] = list(m['bits']) + [True]
-        else:
+        elif 'address' in m:
             m['address'] = (m['address'] + 1) & 0xFFFF
+        else:
+            return m, None
     return m, None
 
 
